@@ -11,7 +11,7 @@ Mirrors the Go code **as it is now** (HEAD of /repo, after the `fix:` commits 80
 | `types/typedname.go  Parent`, `IsQualified`                    | `List.dropLast`, `qualified`           |
 | `loader/smartpath.go TypedNames`                               | `typedNames`                           |
 | `loader/smartpath.go EffectivePath`, `GenericPath`             | `effectivePath`, `SmartPath.generic`   |
-| `loader/filebased.go newFileBasedLoader/newPuppetTypePath`     | `spOf`                                 |
+| `loader/filebased.go newFileBasedLoader/newPuppetTypePath`     | `spOf` (the constructor as a function over path types: `Model/FilesCtor.lean`) |
 | `loader/filebased.go addToIndex/ensureIndexed/findExistingPath`| `fileKeys`, `idx` (one walk of the tree, in the order given) |
 | `loader/filebased.go LoadEntry`                                | `fbLoadEntry`                          |
 | `loader/filebased.go find` (switch part / tail / parent search)| `find`, `findTail`, `parentSearch`     |
@@ -47,7 +47,9 @@ Quirks kept on purpose:
   type is not yet resolved, so `Equals` is false); two type sets with the same name are equal;
 * the recursion `find → instantiate → AddTypes → resolveTypeSet → LoadEntry → find` is cut only by the placeholder that
   `instantiate` installs: every function takes explicit fuel and answers `Err.diverges` when it runs out.  `Cfg.guardInit
-  = false` restores the code before fix 51b01c7 (the `init_typeset` route called the instantiator directly).
+  = false` restores the code before fix 51b01c7 (the `init_typeset` route called the instantiator directly).  A fuel that
+  provably suffices (`C15_terminates`) is computed by `Model/FilesFuel.lean`; the fuel is otherwise immaterial
+  (`C15_fuel_irrelevant`).
 -/
 namespace Pcore.Files
 
